@@ -48,6 +48,7 @@ class Oracle:
     from_model(ob) -> case built from a counter-model (may return None)
     """
     bound = ""
+    quick_cases = 150; thorough_cases = 20000
     def check(self, case): raise NotImplementedError
     def cases(self, ctx): return ()
     def from_model(self, ob): return None
@@ -140,7 +141,7 @@ class ProofUnit(Unit):
         # CPython cross-check of the contract itself: the native oracle must agree with the real code on the unchanged tree
         if oracle is not None and self.xcheck:
             t0 = time.time(); n = 0; bad = None; badcase = None
-            limit = 2000 if ctx.thorough else 150
+            limit = getattr(oracle, 'thorough_cases', 20000) if ctx.thorough else getattr(oracle, 'quick_cases', 150)
             for c in oracle.cases(ctx):
                 n += 1
                 b = oracle.check(c)
